@@ -342,6 +342,13 @@ func runC01(src sim.Source, o Opts) *Result {
 		for i := 0; i < nprobes && !res.failed(); i++ {
 			rr.churnPool()
 			p := world.GenProbe(src, rr.pool, rr.f.methods)
+			if p.Host != "" && !strings.ContainsAny(p.Host, ":") && !strings.HasSuffix(p.Host, ".") && src.Intn("nearmisshost", 6) == 0 {
+				// a Host that is almost the registered one (extra or missing byte or label, port, trailing dot): no route
+				// unless some pattern really matches it
+				oh, _ := world.Instantiate(src, rr.pool[src.Intn("op", len(rr.pool))])
+				p.Host, _ = hostVariants(src, p.Host, oh)
+				res.inc("probes_with_near_miss_host")
+			}
 			probeKeys = append(probeKeys, fmt.Sprint(p))
 			where := fmt.Sprintf("round %d", r)
 			rr.checkDirect(p, rr.w.R, where+" (router)")
